@@ -209,8 +209,9 @@ def build_cases(tier, seed, extra=None):
         out.append(("G6", [80, 20, 0][i % 3], 2, 1, s))
         out.append(("G6", [80, 20, 0][i % 3], 2, 0, s))
     # G5 nested families
-    # depth 24: a converter that does its work twice per level needs 2^24 conversions there and is reported as a hang
-    depths = [1, 2, 4, 8, 16, 24] if tier == "quick" else [1, 2, 4, 8, 16, 24, 32, 64]
+    # depth 32: a converter that does its work twice per level needs 2^32 conversions there and is reported as a hang
+    # (no answer within common.STALL seconds)
+    depths = [1, 2, 4, 8, 16, 32] if tier == "quick" else [1, 2, 4, 8, 16, 32, 64]
     for fam in FAMILIES:
         for d in depths:
             out.append(("G5:" + fam, 80, 2, 0, nested_family(fam, d)))
